@@ -80,7 +80,7 @@ func IsSupportedDS(ds *dns.DS) bool {
 // not guarantee key-tag uniqueness: a colliding tag could otherwise
 // mask the KSK that actually authenticates the DS.
 func VerifyDS(keyMap map[uint16][]*dns.DNSKEY, parentDSSet []dns.RR) (bool, error) {
-	return verifyDSWithWork(keyMap, parentDSSet, nil)
+	return verifyDSWithWork(keyMap, parentDSSet, nil, nil)
 }
 
 // VerifyDSWithWork is VerifyDS with request-tree digest work accounting.
@@ -91,13 +91,40 @@ func VerifyDSWithWork(
 	parentDSSet []dns.RR,
 	work DSDigestWork,
 ) (bool, error) {
-	return verifyDSWithWork(keyMap, parentDSSet, work)
+	return verifyDSWithWork(keyMap, parentDSSet, work, nil)
 }
 
+// MatchDSWithWork is VerifyDSWithWork that also reports *which* DNSKEYs the
+// DS RRset authenticates. RFC 4035 §5.2: a DNSKEY RRset is authenticated only
+// by a signature made with a key some DS names; the other keys in the RRset
+// are part of the data being authenticated and cannot vouch for it. Callers
+// validating a DNSKEY RRset must therefore check its RRSIGs against the
+// returned map, not against the whole RRset.
+//
+// Unlike VerifyDSWithWork it does not stop at the first match: during a KSK
+// rollover several DS records name different keys and only one of them may
+// be signing.
+func MatchDSWithWork(
+	keyMap map[uint16][]*dns.DNSKEY,
+	parentDSSet []dns.RR,
+	work DSDigestWork,
+) (map[uint16][]*dns.DNSKEY, bool, error) {
+	matched := make(map[uint16][]*dns.DNSKEY)
+	unsupportedOnly, err := verifyDSWithWork(keyMap, parentDSSet, work, matched)
+	if err != nil {
+		return nil, unsupportedOnly, err
+	}
+	return matched, false, nil
+}
+
+// verifyDSWithWork returns at the first DS/DNSKEY match when matched is nil.
+// Otherwise it walks the whole DS RRset and records every DNSKEY a supported
+// DS authenticates, keyed by tag.
 func verifyDSWithWork(
 	keyMap map[uint16][]*dns.DNSKEY,
 	parentDSSet []dns.RR,
 	work DSDigestWork,
+	matched map[uint16][]*dns.DNSKEY,
 ) (bool, error) {
 	dsRecords := uniqueSortedDSRecords(parentDSSet)
 	total := len(dsRecords)
@@ -137,9 +164,13 @@ func verifyDSWithWork(
 			continue
 		}
 
-		matched := false
+		found := false
 		var candidateUsed uint32
 		for _, ksk := range candidates {
+			if alreadyMatched(matched, ksk) {
+				found = true
+				continue
+			}
 			if work != nil {
 				if err := work.CheckDNSKEYCandidate(candidateUsed); err != nil {
 					return false, wrapWorkError(err)
@@ -152,16 +183,22 @@ func verifyDSWithWork(
 			}
 			candidateUsed++
 			if ok {
-				matched = true
+				found = true
+				if matched != nil {
+					matched[parentDS.KeyTag] = append(matched[parentDS.KeyTag], ksk)
+				}
 				break
 			}
 			lastErr = ErrMismatchingDS
 		}
-		if matched {
+		if found && matched == nil {
 			return false, nil
 		}
 	}
 
+	if len(matched) > 0 {
+		return false, nil
+	}
 	if total == 0 {
 		return false, ErrMissingKSK
 	}
@@ -172,6 +209,22 @@ func verifyDSWithWork(
 		lastErr = ErrMissingKSK
 	}
 	return false, lastErr
+}
+
+// alreadyMatched reports whether key was recorded by an earlier DS in the
+// same walk (two DS records with different digest types commonly name one
+// key), so that it is neither digested nor listed twice.
+func alreadyMatched(matched map[uint16][]*dns.DNSKEY, key *dns.DNSKEY) bool {
+	if len(matched) == 0 {
+		return false
+	}
+	id := dnskeyID(key)
+	for _, k := range matched[KeyTag(key)] {
+		if dnskeyID(k) == id {
+			return true
+		}
+	}
+	return false
 }
 
 type dnskeyIdentity struct {
